@@ -1,6 +1,3 @@
-//@unit rt_search
-//@serves C05 C10
-//@backend verus
 // bbiread::CirTreeBlockSearchIter::next + search_cir_tree_inner: the work-list DFS over the on-disk
 // R-tree.  Property (C05): "finds every block whose span intersects the query and returns the blocks
 // in file order"; (C10): "R-trees of any fan-out, depth and node placement" -- the contract only uses
@@ -9,20 +6,78 @@ use vstd::prelude::*;
 use std::collections::VecDeque;
 verus! {
 
-//@extract struct bigtools/src/bbi/bbiread.rs Block
-//@rule R8
-//@end
-//@extract struct bigtools/src/bbi/bbiread.rs CirTreeNodeLeaf
-//@rule R8
-//@end
-//@extract struct bigtools/src/bbi/bbiread.rs CirTreeNodeNonLeaf
-//@rule R8
-//@end
+#[derive(Copy, Clone)]
+pub struct Block {
+    pub offset: u64,
+    pub size: u64,
+}
+#[derive(Copy, Clone)]
+pub struct CirTreeNodeLeaf {
+    start_chrom_ix: u32,
+    start_base: u32,
+    end_chrom_ix: u32,
+    end_base: u32,
+    data_offset: u64,
+    data_size: u64,
+}
+#[derive(Copy, Clone)]
+pub struct CirTreeNodeNonLeaf {
+    start_chrom_ix: u32,
+    start_base: u32,
+    end_chrom_ix: u32,
+    end_base: u32,
+    node_offset: u64,
+}
 
-//@include ../rt_nodes/spec.rs
+// ---------------- specification vocabulary shared by rt_nodes and rt_search ----------------
+// Written from the property texts (C05: "finds every block whose span intersects the query and
+// returns the blocks in file order"; C04: "every stored entry whose span overlaps the range").
+// Included AFTER the extracted structs CirTreeNodeLeaf, CirTreeNodeNonLeaf, Block.
 
-// the per-node filter, with its contracts, exactly as verified in unit rt_nodes (same include file)
-//@include ../rt_nodes/nodes_code.inc
+/// strict lexicographic order on (chromosome index, base)
+spec fn pos_lt(a: (u32, u32), b: (u32, u32)) -> bool {
+    a.0 < b.0 || (a.0 == b.0 && a.1 < b.1)
+}
+/// non-strict lexicographic order on (chromosome index, base)
+spec fn pos_le(a: (u32, u32), b: (u32, u32)) -> bool {
+    a.0 < b.0 || (a.0 == b.0 && a.1 <= b.1)
+}
+/// A span is the closed range of positions from (b1, b1s) to (b2, b2e) in (chrom, base) order; the
+/// query is chromosome q, bases [qs, qe].  They intersect iff neither lies wholly before the other.
+spec fn overlaps_spec(q: u32, qs: u32, qe: u32, b1: u32, b1s: u32, b2: u32, b2e: u32) -> bool {
+    pos_le((q, qs), (b2, b2e)) && pos_le((b1, b1s), (q, qe))
+}
+spec fn leaf_hit(c: CirTreeNodeLeaf, q: u32, qs: u32, qe: u32) -> bool {
+    overlaps_spec(q, qs, qe, c.start_chrom_ix, c.start_base, c.end_chrom_ix, c.end_base)
+}
+spec fn nonleaf_hit(c: CirTreeNodeNonLeaf, q: u32, qs: u32, qe: u32) -> bool {
+    overlaps_spec(q, qs, qe, c.start_chrom_ix, c.start_base, c.end_chrom_ix, c.end_base)
+}
+spec fn leaf_block(c: CirTreeNodeLeaf) -> Block {
+    Block { offset: c.data_offset, size: c.data_size }
+}
+/// order-preserving filter+map of the first n leaf items: the blocks (offset, size) of the items
+/// whose span intersects the query, in stored order
+spec fn filter_blocks(items: Seq<CirTreeNodeLeaf>, q: u32, qs: u32, qe: u32, n: int) -> Seq<Block>
+    decreases n
+{
+    if n <= 0 { Seq::empty() }
+    else {
+        let prev = filter_blocks(items, q, qs, qe, n - 1);
+        if leaf_hit(items[n - 1], q, qs, qe) { prev.push(leaf_block(items[n - 1])) } else { prev }
+    }
+}
+/// order-preserving filter+map of the first n non-leaf items: the child node offsets of the items
+/// whose span intersects the query, in stored order
+spec fn filter_children(items: Seq<CirTreeNodeNonLeaf>, q: u32, qs: u32, qe: u32, n: int) -> Seq<u64>
+    decreases n
+{
+    if n <= 0 { Seq::empty() }
+    else {
+        let prev = filter_children(items, q, qs, qe, n - 1);
+        if nonleaf_hit(items[n - 1], q, qs, qe) { prev.push(items[n - 1].node_offset) } else { prev }
+    }
+}
 
 // ---------------- shims (assumed; listed in NOTES.md) ----------------
 /// shim for std::io::Error (opaque)
@@ -61,53 +116,30 @@ impl VIndex {
     pub uninterp spec fn ht(&self) -> Map<u64, nat>;
     pub uninterp spec fn log(&self) -> Seq<(u64, bool)>;
 
-}
-/// the ghost node an (iterator -> Vec) CirTreeNodeIterator stands for
-spec fn node_of(it: CirTreeNodeIterator<Vec<CirTreeNodeLeaf>, Vec<CirTreeNodeNonLeaf>>) -> Node {
-    match it {
-        CirTreeNodeIterator::Leaf(v) => Node::Leaf(v@),
-        CirTreeNodeIterator::NonLeaf(v) => Node::NonLeaf(v@),
-    }
-}
-// ASSUMED contract of `read_node` (signature cut from /repo, body skipped; the decoding itself is the
-// business of units rt_readnode / rt_items): may fail at any time (I/O); if it succeeds and node_offset
-// is a node of the ghost tree, it yields that node's items in stored order.  Nothing is promised for
-// offsets outside the ghost tree.  The file content does not change; one log entry per call.
-//@extract fn bigtools/src/bbi/bbiread.rs read_node
-//@skipbody
-//@sub /pub\(crate\) fn read_node<R: SeekableRead>/ => fn read_node
-//@sub /file: &mut R/ => file: &mut VIndex
-//@sub /io::Result<CirTreeNodeIterator>/ => Result<CirTreeNodeIterator<Vec<CirTreeNodeLeaf>, Vec<CirTreeNodeNonLeaf>>, IoError>
-//@ret r
-//@sig
-    ensures
-        final(file).tree() == old(file).tree(),
-        final(file).ht() == old(file).ht(),
-        final(file).log() == old(file).log().push((node_offset, r is Ok)),
-        r is Ok && old(file).tree().contains_key(node_offset) ==> node_of(r->Ok_0) == old(file).tree()[node_offset],
-//@end
-
-impl VIndex {
-// The reader call of the search: the real `blocks_for_cir_tree_node` of plain readers
-// (`impl<S: SeekableRead> BBIFileRead for S`), verified here: read_node, then nodes_overlapping.
-// `Self = S` -> VIndex (R11, by placing the method in `impl VIndex`).
-//@extract method bigtools/src/bbi/bbiread.rs blocks_for_cir_tree_node "BBIFileRead for S\b"
-//@sub /io::Result<\((.*)\)>/ => Result<(\1), IoError>
-//@sub /SmallVec<\[([^;\]]+); 4\]>/ => Vec<\1> min=2
-//@ret r
-//@sig
+// ASSUMED contract of the reader call.  The real body for plain readers (bbiread.rs, impl<S: SeekableRead>
+// BBIFileRead for S, lines 520-535) is `read_node(self, node_offset, endianness)` followed by
+// `nodes_overlapping(iter, chrom_ix, start, end)`, with an Err of read_node passed on.  So: may fail at any
+// time (I/O); if it succeeds and node_offset is a node of the ghost tree, the result is nodes_overlapping
+// (contract: unit rt_nodes) of that node.  Nothing is promised for offsets outside the ghost tree.
+// The file content does not change.  Signature cut from /repo (body skipped).
+#[verifier::external_body]
+fn blocks_for_cir_tree_node(
+        &mut self,
+        endianness: Endianness,
+        node_offset: u64,
+        chrom_ix: u32,
+        start: u32,
+        end: u32,
+    ) -> (r: Result<(Vec<u64>, Vec<Block>), IoError>)
         ensures
-            [[L: file_unchanged]]
             final(self).tree() == old(self).tree(),
             final(self).ht() == old(self).ht(),
-            [[L: one_read_logged_and_error_passed_on]]
             final(self).log() == old(self).log().push((node_offset, r is Ok)),
-            [[L: result_is_nodes_overlapping_of_the_stored_node]]
             r is Ok && old(self).tree().contains_key(node_offset) ==> {
                 &&& r->Ok_0.0@ == node_kids(old(self).tree()[node_offset], chrom_ix, start, end)
                 &&& r->Ok_0.1@ == node_blocks(old(self).tree()[node_offset], chrom_ix, start, end)
             },
-//@end
+{ unimplemented!() }
 }
 
 /// verified stand-in for `Vec::extend(Vec)` (appends all elements in order)
@@ -309,11 +341,15 @@ proof fn lemma_visit_nonempty(c: Ctx, off: u64)
 }
 
 // CirTreeBlockSearchIter: reader type parameter R -> VIndex (R11).
-//@extract struct bigtools/src/bbi/bbiread.rs CirTreeBlockSearchIter
-//@rule R8
-//@sub /<'a, R: BBIFileRead>/ => <'a>
-//@sub /&'a mut R/ => &'a mut VIndex
-//@end
+pub struct CirTreeBlockSearchIter<'a> {
+    remaining_childblocks: VecDeque<u64>,
+
+    file: &'a mut VIndex,
+    endianness: Endianness,
+    chrom_ix: u32,
+    start: u32,
+    end: u32,
+}
 
 impl<'a> CirTreeBlockSearchIter<'a> {
 // `impl Iterator for ..` -> inherent method; `Self::Item` written out (it is
@@ -321,84 +357,103 @@ impl<'a> CirTreeBlockSearchIter<'a> {
 // `for child in new_childblocks.into_iter().rev() {` -> reverse index loop (same elements, same order);
 // the second substitution maps a (mutated) forward `into_iter()` loop to a forward index loop so that such
 // a change is judged by the contract instead of being an extraction failure.
-//@extract method bigtools/src/bbi/bbiread.rs next "Iterator for CirTreeBlockSearchIter"
-//@rule R8
-//@sub /Option<Self::Item>/ => Option<Result<Vec<Block>, IoError>>
-//@sub /for child in new_childblocks\.into_iter\(\)\.rev\(\) \{/ => let mut k__ = new_childblocks.len(); while k__ > 0 { k__ = k__ - 1; let child = new_childblocks[k__]; min=0
-//@sub /for child in new_childblocks\.into_iter\(\) \{/ => let mut k__ = 0; while k__ < new_childblocks.len() { let child = new_childblocks[k__]; k__ = k__ + 1; min=0
-//@ret r
-//@sig
+fn next(&mut self) -> (r: Option<Result<Vec<Block>, IoError>>)
         ensures
-            [[L: query_and_file_unchanged]]
+            
             final(self).chrom_ix == old(self).chrom_ix, final(self).start == old(self).start, final(self).end == old(self).end,
             final(self).endianness == old(self).endianness,
             final(self).file.tree() == old(self).file.tree(), final(self).file.ht() == old(self).file.ht(),
             *final(final(self).file) == *final(old(self).file),
-            [[L: empty_worklist_ends_iteration]]
+            
             old(self).remaining_childblocks@.len() == 0 ==> r is None && final(self).remaining_childblocks@.len() == 0
                 && final(self).file.log() == old(self).file.log(),
-            [[L: front_node_is_read_once_and_error_is_returned]]
+            
             old(self).remaining_childblocks@.len() > 0 ==> r is Some
                 && final(self).file.log() == old(self).file.log().push((old(self).remaining_childblocks@[0], r->Some_0 is Ok)),
-            [[L: blocks_are_the_front_nodes_filtered_blocks]]
+            
             r matches Some(Ok(b)) ==> old(self).file.tree().contains_key(old(self).remaining_childblocks@[0]) ==>
                 b@ == node_blocks(old(self).file.tree()[old(self).remaining_childblocks@[0]], old(self).chrom_ix, old(self).start, old(self).end),
-            [[L: children_go_to_the_front_in_order]]
+            
             r matches Some(Ok(b)) ==> old(self).file.tree().contains_key(old(self).remaining_childblocks@[0]) ==>
                 final(self).remaining_childblocks@ ==
                     node_kids(old(self).file.tree()[old(self).remaining_childblocks@[0]], old(self).chrom_ix, old(self).start, old(self).end)
                     + old(self).remaining_childblocks@.drop_first(),
-            [[L: failed_step_only_pops]]
+            
             r matches Some(Err(e)) ==> final(self).remaining_childblocks@ == old(self).remaining_childblocks@.drop_first(),
-//@loop 1
+{
+        let file = &mut *self.file;
+        let endianness = self.endianness;
+        let chrom_ix = self.chrom_ix;
+        let start = self.start;
+        let end = self.end;
+
+        let node_offset = self.remaining_childblocks.pop_front()?;
+
+        let (new_childblocks, blocks) =
+            match file.blocks_for_cir_tree_node(endianness, node_offset, chrom_ix, start, end) {
+                Ok(d) => d,
+                Err(e) => return Some(Err(e)),
+            };
+
+        let mut k__ = new_childblocks.len(); while k__ > 0 
             invariant
-                [[L: loop/pushed_suffix_in_order]]
+                
                 k__ <= new_childblocks@.len(),
                 self.remaining_childblocks@ == new_childblocks@.subrange(k__ as int, new_childblocks@.len() as int) + old(self).remaining_childblocks@.drop_first(),
             decreases
-                [[L: loop/termination]]
+                
                 k__,
-//@at /Some\(Ok\(blocks\)\)/ before
+{ k__ = k__ - 1; let child = new_childblocks[k__];
+            self.remaining_childblocks.push_front(child);
+        }
+
+
         proof {
             assert(new_childblocks@.subrange(0, new_childblocks@.len() as int) =~= new_childblocks@);
         }
-//@end
+        Some(Ok(blocks))
+    }
 }
 
 // search_cir_tree_inner: `R: BBIFileRead` -> VIndex, io::Result -> Result<_, IoError> (R11);
 // `for i in iter {` -> `loop { let i = match iter.next() { None => { break; } Some(r__) => r__ };`
 // (the desugaring of `for` over an Iterator, with the inherent `next`); `blocks.extend(i)` -> extend_vec.
 #[verifier::loop_isolation(false)]
-//@extract fn bigtools/src/bbi/bbiread.rs search_cir_tree_inner
-//@sub /pub\(crate\) fn/ => fn
-//@sub /search_cir_tree_inner<R: BBIFileRead>/ => search_cir_tree_inner
-//@sub /file: &mut R/ => file: &mut VIndex
-//@sub /io::Result<Vec<Block>>/ => Result<Vec<Block>, IoError>
-//@sub /let iter = CirTreeBlockSearchIter/ => let mut iter = CirTreeBlockSearchIter
-//@sub /for i in iter \{/ => loop {\n        let i = match iter.next() { None => { break; } Some(r__) => r__ };
-//@sub /blocks\.extend\(i\);/ => extend_vec(&mut blocks, i);
-//@ret r
-//@sig
+fn search_cir_tree_inner(
+    endianness: Endianness,
+    file: &mut VIndex,
+    at: u64,
+    chrom_ix: u32,
+    start: u32,
+    end: u32,
+) -> (r: Result<Vec<Block>, IoError>)
     requires
-        [[L: pre]]
+        
         tree_wf(ctx_of(*old(file), chrom_ix, start, end)),
         old(file).tree().contains_key(at),
     ensures
-        [[L: file_unchanged]]
+        
         final(file).tree() == old(file).tree(), final(file).ht() == old(file).ht(),
-        [[L: result_is_preorder_dfs]]
+        
         r matches Ok(b) ==> b@ == dfs(ctx_of(*old(file), chrom_ix, start, end), at),
-        [[L: ok_reads_exactly_the_filtered_tree_in_preorder]]
+        
         r is Ok ==> final(file).log() == old(file).log() + ok_reads(visit(ctx_of(*old(file), chrom_ix, start, end), at)),
-        [[L: first_read_error_is_returned_at_once]]
+        
         r is Err ==> exists|n: int| 0 <= n < visit(ctx_of(*old(file), chrom_ix, start, end), at).len()
             && final(file).log() == #[trigger] err_log(old(file).log(), visit(ctx_of(*old(file), chrom_ix, start, end), at), n),
-//@open
+{
     let ghost c = ctx_of(*file, chrom_ix, start, end);
     let ghost log0 = file.log();
     let ghost ff = *final(file);
     let ghost mut done: Seq<u64> = Seq::empty();
-//@at /let mut iter = CirTreeBlockSearchIter/ before
+
+    // We currently don't check that the passed interval overlaps with *any* data.
+    // We could, but would have to store this data when we check the header.
+    let mut blocks = vec![];
+
+    let mut remaining_childblocks = VecDeque::with_capacity(2048);
+    remaining_childblocks.push_front(at);
+
     proof {
         lemma_single(c, at);
         assert(remaining_childblocks@ =~= seq![at]);
@@ -406,29 +461,40 @@ impl<'a> CirTreeBlockSearchIter<'a> {
         assert(log0 + ok_reads(done) =~= log0);
         assert(done + visit_seq(c, seq![at]) =~= visit(c, at));
     }
-//@loop 1
+    let mut iter = CirTreeBlockSearchIter {
+        remaining_childblocks,
+        file,
+        endianness,
+        chrom_ix,
+        start,
+        end,
+    };
+
+    loop 
         invariant
-            [[L: loop/frame]]
+            
             iter.chrom_ix == chrom_ix, iter.start == start, iter.end == end,
             iter.file.tree() == c.t, iter.file.ht() == c.ht,
             *final(iter.file) == ff,
-            [[L: loop/worklist_nodes_are_stored]]
+            
             all_stored(c, iter.remaining_childblocks@),
-            [[L: loop/blocks_then_dfs_of_worklist_is_dfs_of_root]]
+            
             blocks@ + dfs_seq(c, iter.remaining_childblocks@) == dfs(c, at),
-            [[L: loop/reads_so_far_all_ok_and_preorder_prefix]]
+            
             iter.file.log() == log0 + ok_reads(done),
             done + visit_seq(c, iter.remaining_childblocks@) == visit(c, at),
         decreases
-            [[L: loop/termination]]
+            
             visit_seq(c, iter.remaining_childblocks@).len(),
-//@at /let i = match iter\.next\(\)/ before
+{
+
         let ghost wl0 = iter.remaining_childblocks@;
         let ghost blocks0 = blocks@;
-//@at /let i = match iter\.next\(\)/ after
+        let i = match iter.next() { None => { break; } Some(r__) => r__ };
+
         proof {
             // here r__ was Some(i): the work-list was not empty
-            lemma_step(c, wl0); [[L: loop/step_preserves_preorder]]
+            lemma_step(c, wl0); 
             let f = wl0[0];
             let v = visit(c, at);
             let wl1 = iter.remaining_childblocks@;
@@ -447,14 +513,20 @@ impl<'a> CirTreeBlockSearchIter<'a> {
                 assert(iter.file.log() == err_log(log0, v, done.len() as int));
             }
         }
-//@at /^    Ok\(blocks\)/ before
+        let i = i?;
+        extend_vec(&mut blocks, i);
+    }
+
+
     proof {
         // reached only after `break`: the work-list is empty
         assert(iter.remaining_childblocks@ =~= Seq::<u64>::empty());
         assert(blocks@ + Seq::<Block>::empty() =~= blocks@);
         assert(done + Seq::<u64>::empty() =~= done);
     }
-//@end
+    Ok(blocks)
+}
 
 } // verus!
 fn main() {}
+
